@@ -748,6 +748,31 @@ impl Scenario for MigScenario {
         }
         use rand_core::SeedableRng;
         let mut store = SimStore { mem: None, world: &world as *const World, sql: conn_holder.as_mut().map(|(c, a)| (c, *a)), fail_next: 0, calls: 0, writes: 0, roundtrip_failure: None, sql_error: None };
+        // history: the account may already have run a migration that ended (its terminal record is retained beside
+        // the pending one and nothing may rewrite it)
+        let mut history: Vec<(zcash_client_sqlite::pool_migration::MigrationUuid, MigrationStatus)> = vec![];
+        if !use_arb && store.sql.is_some() && ch.chance("sqlite.history", 1, 2) {
+            let mut prior = state.clone();
+            if ch.chance("history.cancelled", 1, 3) {
+                prior.mark_cancelled();
+            } else {
+                prior.mark_superseded();
+            }
+            let _ = store.save(&prior);
+            let _ = store.sql_error.take();
+            let _ = store.roundtrip_failure.take();
+            store.mem = None;
+            if let Some((conn, acct)) = store.sql.as_mut() {
+                if let Ok(pm) = PoolMigrations::for_account(full_net(Some(1)), SimClock(std::sync::Arc::new(1_700_000_000.into())), &mut **conn, *acct) {
+                    if let Ok(l) = pm.list_migrations() {
+                        history = l.iter().map(|m| (m.id(), m.status())).collect();
+                    }
+                }
+            }
+            if !history.is_empty() {
+                ctx.probe("sqlite_history_row_present");
+            }
+        }
         // arbitrary states are not validly committed migrations (the SQLite store may legitimately refuse some);
         // the initial save of an engine-built state must succeed and round-trip
         let _ = store.save(&state);
@@ -896,7 +921,7 @@ impl Scenario for MigScenario {
                 break;
             }
             ch.open("ev");
-            let k = if fault_free { ch.weighted("event", &[45, 40, 0, 0, 0, 0, 0, 0]) } else { ch.weighted("event", &[34, 30, 7, 6, 6, 6, 6, 5]) };
+            let k = if fault_free { ch.weighted("event", &[45, 40, 0, 0, 0, 0, 0, 0, 0]) } else { ch.weighted("event", &[34, 30, 7, 6, 6, 6, 6, 5, if store.sql.is_some() && !use_arb { 1 } else { 0 }]) };
             match k {
                 // ---- consumer drives
                 0 => {
@@ -1136,6 +1161,53 @@ impl Scenario for MigScenario {
                         ctx.fault("clock_jump");
                     }
                     ctx.fault("clock_skew");
+                }
+                // ---- the user cancels the migration (store level: works without reading the state)
+                8 => {
+                    ctx.op("cancel_migration");
+                    let mut after: Vec<(zcash_client_sqlite::pool_migration::MigrationUuid, MigrationStatus)> = vec![];
+                    let mut err = None;
+                    if let Some((conn, acct)) = store.sql.as_mut() {
+                        match PoolMigrations::for_account(full_net(Some(1)), SimClock(std::sync::Arc::new(1_700_000_000.into())), &mut **conn, *acct) {
+                            Ok(mut pm) => {
+                                if let Err(e) = pm.cancel_migration() {
+                                    err = Some(format!("{e:?}"));
+                                }
+                                match pm.list_migrations() {
+                                    Ok(l) => after = l.iter().map(|m| (m.id(), m.status())).collect(),
+                                    Err(e) => err = Some(format!("{e:?}")),
+                                }
+                            }
+                            Err(e) => err = Some(format!("{e:?}")),
+                        }
+                    }
+                    if let Some(e) = err {
+                        ch.close();
+                        return self.v(ctx, false, Violation::new("cancel_migration_succeeds", e));
+                    }
+                    ctx.oracle("cancel_touches_only_the_pending_record");
+                    for (id, st) in &history {
+                        match after.iter().find(|(i, _)| i == id) {
+                            Some((_, now)) if now == st => {}
+                            other => {
+                                ch.close();
+                                return self.v(ctx, false, Violation::new("terminal_status_absorbing", format!("cancel_migration rewrote history: the earlier migration {id:?} was {st:?} and is now {:?}", other.map(|x| x.1))));
+                            }
+                        }
+                    }
+                    let pending_left = after.iter().filter(|(_, st)| !st.is_terminal()).count();
+                    if pending_left != 0 {
+                        ch.close();
+                        return self.v(ctx, false, Violation::new("cancel_ends_the_pending_migration", format!("{pending_left} non-terminal records remain after cancel_migration: {after:?}")));
+                    }
+                    if !state.is_terminal() && !after.iter().any(|(id, st)| *st == MigrationStatus::Cancelled && !history.iter().any(|(h, _)| h == id)) {
+                        ch.close();
+                        return self.v(ctx, false, Violation::new("cancel_ends_the_pending_migration", format!("the pending migration is not recorded Cancelled: {after:?}")));
+                    }
+                    ctx.probe("migration_cancelled_in_store");
+                    ctx.event("migration cancelled; run ends");
+                    ch.close();
+                    return Ok(());
                 }
                 // ---- consumer restarts from the store
                 _ => {
